@@ -9,12 +9,15 @@ import warnings
 import impl
 
 
+_CALLS = 0
+
+
 class ResultShapeError(AssertionError):
     """the result table does not have one row per input row"""
 
 
 def simulate(df, date, targets=None, rounding=True, debug=False, params=None, functions=None,
-             minimal="ignore", fill_missing=True, scramble_index=True, **kw):
+             minimal="ignore", fill_missing=True, scramble_index=True, dict_form=None, **kw):
     """compute_taxes_and_transfers; returns (DataFrame, warnings list) or raises.
     date: ordinal | iso string | datetime.date.  With fill_missing, root columns the system asks for
     that the generator does not know (pre-2015 systems) are added as zeros."""
@@ -47,6 +50,14 @@ def simulate(df, date, targets=None, rounding=True, debug=False, params=None, fu
                 perm = perm[::-1]
             # mostly a permutation of 0..n-1 (a label-aligned result is then silently attached to other rows); for some sizes labels outside 0..n-1
             data.index = perm if len(df) % 3 else perm * 3 + 1000
+            # every third harness table is handed over as a dict of Series (the other documented form of `data`; read positionally):
+            # the labels of the Series then count downwards
+            global _CALLS
+            _CALLS += 1
+            if dict_form is True or (dict_form is None and _CALLS % 3 == 0):
+                lab = list(range(2 * len(df) + 7, len(df) + 7, -1))
+                data = {c: pd.Series(df[c].to_numpy(), index=lab, name=c) for c in df.columns}
+    n_rows = len(df) if hasattr(df, "__len__") and hasattr(df, "columns") else None
     for _ in range(3):
         try:
             with warnings.catch_warnings(record=True) as w:
@@ -54,8 +65,8 @@ def simulate(df, date, targets=None, rounding=True, debug=False, params=None, fu
                 out = compute_taxes_and_transfers(
                     data=data, params=params, functions=functions, targets=targets, rounding=rounding,
                     debug=debug, check_minimal_specification=minimal, **kw)
-            if hasattr(out, "shape") and hasattr(data, "shape") and len(out) != len(data):
-                raise ResultShapeError(f"result has {len(out)} rows for {len(data)} input rows (index labels of the input: {list(data.index[:6])} ...)")
+            if hasattr(out, "shape") and n_rows is not None and len(out) != n_rows:
+                raise ResultShapeError(f"result has {len(out)} rows for {n_rows} input rows (data passed as {type(data).__name__} with non-default index labels)")
             return out, w
         except ValueError as ex:
             msg = str(ex)
@@ -65,7 +76,13 @@ def simulate(df, date, targets=None, rounding=True, debug=False, params=None, fu
                     raise
                 data = data.copy()
                 for n in names:
-                    data[n] = 0.0
+                    if isinstance(data, dict):
+                        import pandas as pd
+
+                        first = next(iter(data.values()))
+                        data[n] = pd.Series([0.0] * len(first), index=first.index, name=n)
+                    else:
+                        data[n] = 0.0
                 continue
             raise
     raise RuntimeError("could not complete the data")
